@@ -13,7 +13,6 @@ import (
 // exporter model: logs every batch, checks exclusivity, is "slow" (yields
 // inside the export) and may fail
 type c01Exporter struct {
-	mu        sync.Mutex // protects the log only (ghost)
 	in        int32      // number of goroutines inside ExportSpans
 	overlap   bool
 	batches   [][]string
@@ -27,23 +26,26 @@ type c01Exporter struct {
 var errC01 = errors.New("export failed")
 
 func (e *c01Exporter) ExportSpans(ctx context.Context, spans []ReadOnlySpan) error {
+	// the batch counts as handed to the exporter at the instant of the call
+	// (the wording of C01), not when the slow export completes: the ledger is
+	// updated before the first scheduling point of the call
+	vndGhost(func() {
+		names := make([]string, len(spans))
+		for i, s := range spans {
+			names[i] = s.Name()
+		}
+		e.batches = append(e.batches, names)
+		if len(spans) > e.maxBatch {
+			e.maxBatch = len(spans)
+		}
+	})
 	if atomic.AddInt32(&e.in, 1) != 1 {
 		e.overlap = true
 	}
 	if vndGhostLoad(e.stopped) {
 		e.afterStop = true
 	}
-	names := make([]string, len(spans))
-	for i, s := range spans {
-		names[i] = s.Name()
-	}
 	vndYield() // a slow exporter
-	e.mu.Lock()
-	e.batches = append(e.batches, names)
-	if len(spans) > e.maxBatch {
-		e.maxBatch = len(spans)
-	}
-	e.mu.Unlock()
 	atomic.AddInt32(&e.in, -1)
 	if e.fail {
 		return errC01
@@ -52,23 +54,21 @@ func (e *c01Exporter) ExportSpans(ctx context.Context, spans []ReadOnlySpan) err
 }
 
 func (e *c01Exporter) Shutdown(context.Context) error {
-	e.mu.Lock()
-	e.shutdowns++
-	e.mu.Unlock()
+	vndGhost(func() { e.shutdowns++ })
 	return nil
 }
 
 func (e *c01Exporter) count(name string) int {
-	e.mu.Lock()
-	defer e.mu.Unlock()
 	n := 0
-	for _, b := range e.batches {
-		for _, s := range b {
-			if s == name {
-				n++
+	vndGhost(func() {
+		for _, b := range e.batches {
+			for _, s := range b {
+				if s == name {
+					n++
+				}
 			}
 		}
-	}
+	})
 	return n
 }
 
